@@ -195,6 +195,8 @@ def extreme_text(draw):
         return prefix + '0.000%d' % d
     if k == 4:
         return prefix + '00.00%d' % d
+    if draw(3) == 0:
+        return str(1 + draw(9)) * (300 + draw(120))           # hundreds of digits: beyond any float
     return ''.join(str(draw(10)) for _ in range(7 + draw(6))) + ('.%d' % d if draw(2) else '')
 
 
@@ -247,6 +249,12 @@ def plausible_text(event, fam, draw):
         if draw(4) == 0:                              # hug the limits
             milli_speed = [495, 500, 505, 9990, 10000, 10010, 10990, 11000, 11010][draw(9)]
         cs = max(1, min(int(d * 100000 / milli_speed), 100 * 3600 * 30))
+        if draw(5) == 0 and cs < 6000 * 60:
+            # thousandths / ten-thousandths: rounding to the printed precision must not carry a mark across a limit
+            extra = ['%d' % draw(10), '%02d' % draw(100)][draw(2)]
+            m_, r_ = divmod(cs, 6000)
+            body = '%d.%02d%s' % (r_ // 100, r_ % 100, extra) if not m_ else '%d:%02d.%02d%s' % (m_, r_ // 100, r_ % 100, extra)
+            return body
         return render_duration(cs, draw)
     if fam == 'field':
         g = re.match(r'^[A-Za-z]+', event).group(0).upper()
@@ -280,6 +288,9 @@ def nontrivial(case, r):
 
 
 def do_case(ctx, case):
+    if family(case['event']) == 'not-a-code' and case['event'] not in LOOSE:
+        ctx.label('outside-domain-event-skipped')       # the property speaks of valid codes and the customary names
+        return
     ctx.count()
     vs = examine(case)
     ctx.violations(vs)
